@@ -195,8 +195,13 @@ class Bundle:
         torch.save({k: m.state_dict() for k, m in self.parts().items()}, buf)
         return buf.getvalue()
 
-    def load(self, blob: bytes):
-        sd = torch.load(io.BytesIO(blob), weights_only=False)
+    @staticmethod
+    def deserialise(blob: bytes):
+        return torch.load(io.BytesIO(blob), weights_only=False)
+
+    def load(self, blob: bytes, sd=None):
+        """sd: an already deserialised checkpoint (the same object may be loaded into several instances)"""
+        sd = self.deserialise(blob) if sd is None else sd
         for k, m in self.parts().items():
             m.load_state_dict(sd[k])
 
